@@ -315,6 +315,47 @@ def getStrategy (cls : List Char) (opts : List (List Char × OptVal)) : Strategy
       | none => none))
   else .none_
 
+/-! ## orderedPartitioner (matches `…ByteOrderedPartitioner`): tokens are byte strings
+
+`orderedToken` is a Go string; `Less` is Go's `<` on strings = byte-wise lexicographic order, a proper prefix first.
+Bytes are `Nat`s below 256.  `ParseString(str) = orderedToken(str)` keeps the TEXT Cassandra reports for a ring token
+as it is; `Hash(partitionKey) = orderedToken(partitionKey)` is the raw key. -/
+
+/-- Go's `a < b` on strings -/
+def lexLt : List Nat → List Nat → Bool
+  | _, [] => false
+  | [], _ :: _ => true
+  | a :: as, b :: bs => decide (a < b) || (a == b && lexLt as bs)
+
+/-- `orderedPartitioner.ParseString` -/
+def orderedParse (str : List Nat) : List Nat := str
+
+/-- `orderedPartitioner.Hash` -/
+def orderedHash (key : List Nat) : List Nat := key
+
+abbrev OEntry := List Nat × Host
+
+def insertEntryO (e : OEntry) : List OEntry → List OEntry
+  | [] => [e]
+  | x :: xs => if !lexLt x.1 e.1 then e :: x :: xs else x :: insertEntryO e xs
+
+/-- `newTokenRing` under the ordered partitioner: parse every token string, append, sort -/
+def buildRingO (hosts : List (Host × List (List Nat))) : List OEntry :=
+  (hosts.flatMap (fun ht => ht.2.map (fun t => (orderedParse t, ht.1)))).foldr insertEntryO []
+
+def oTokAt {β : Type} (l : List (List Nat × β)) (i : Nat) : List Nat :=
+  match l[i]? with
+  | some e => e.1
+  | none => []
+
+/-- the index `GetHostForToken` computes, with `orderedToken.Less` as the order -/
+def lookupIdxO {β : Type} (l : List (List Nat × β)) (t : List Nat) : Nat :=
+  let p := sortSearch l.length (fun i => !(lexLt (oTokAt l i) t))
+  if p ≥ l.length then 0 else p
+
+def getHostForTokenO (ring : List OEntry) (t : List Nat) : Option OEntry :=
+  if ring.length = 0 then none else ring[lookupIdxO ring t]?
+
 /-! ## Specification (Cassandra), written from Appendix E3–E5 of DESIGN.md, independent of the code above -/
 namespace Spec
 
@@ -394,6 +435,89 @@ def walk (tp : Topo) (dcs : List Nat) (rf : Nat → Nat) : St → List Host → 
 /-- E5 NetworkTopologyStrategy.calculateNaturalEndpoints(t): `rfs` = the keyspace's datacenter → rf options. -/
 def nts (ring : List Entry) (rfs : List (Nat × Nat)) (t : Int) : List Host :=
   (walk (topoOf ring) (rfs.map (·.1)) (rfOf rfs) init ((clockwise ring t).map (·.2))).replicas
+
+/-! ### ByteOrderedPartitioner (E2): a token IS a byte string (the partition key); order = unsigned byte-wise
+lexicographic, shorter prefix first.  In `system.local` / `system.peers` the token is reported as TEXT: its lowercase
+hexadecimal rendering (`ByteOrderedPartitioner.tokenFactory.toString = Hex.bytesToHex`; the Java driver parses it back
+with `Bytes.fromHexString`). -/
+
+def hexDigit (n : Nat) : Nat := if n < 10 then 48 + n else 87 + n
+
+/-- `Hex.bytesToHex`, as ASCII codes -/
+def hexOf : List Nat → List Nat
+  | [] => []
+  | b :: bs => hexDigit (b / 16) :: hexDigit (b % 16) :: hexOf bs
+
+/-- index of the owner of `key` on the ring (ascending by token): first token ≥ key, else 0 -/
+def ownerIdxO {β : Type} (ring : List (List Nat × β)) (key : List Nat) : Nat :=
+  let i := ring.findIdx (fun e => !lexLt e.1 key)
+  if i < ring.length then i else 0
+
+def ownerO {β : Type} (ring : List (List Nat × β)) (key : List Nat) : Option (List Nat × β) :=
+  ring[ownerIdxO ring key]?
+
+/-- the ring as the driver receives it: every token as the text Cassandra reports -/
+def reported (ring : List OEntry) : List (Host × List (List Nat)) := ring.map (fun e => (e.2, [hexOf e.1]))
+
+/-! ### keyspace replication options (what `system_schema.keyspaces.replication` / `strategy_options` mean) -/
+
+/-- value of a decimal digit -/
+def digit (c : Char) : Option Nat := if '0' ≤ c ∧ c ≤ '9' then some (c.toNat - 48) else none
+
+/-- positional value of a digit string, most significant digit first: Σ dᵢ·10^(n-1-i) -/
+def decimalAux : List Char → Option Nat
+  | [] => some 0
+  | c :: cs =>
+    match digit c, decimalAux cs with
+    | some d, some v => some (d * 10 ^ cs.length + v)
+    | _, _ => none
+
+/-- a decimal numeral: at least one digit -/
+def decimal (s : List Char) : Option Nat := if s.isEmpty then none else decimalAux s
+
+/-- the replication factor an option value denotes: a non-negative integer, or a string holding a decimal numeral with
+an optional sign (`Integer.parseInt`; the driver accepts the range of a 64-bit int) whose value is not negative;
+anything else (other types, nil = option absent, malformed text, transient-replication "3/1") denotes none. -/
+def rfOfOpt : OptVal → Option Nat
+  | .int v => if 0 ≤ v then some v.toNat else none
+  | .str ('-' :: ds) => match decimal ds with
+    | some 0 => some 0
+    | _ => none
+  | .str ('+' :: ds) => match decimal ds with
+    | some n => if n < 2 ^ 63 then some n else none
+    | none => none
+  | .str ds => match decimal ds with
+    | some n => if n < 2 ^ 63 then some n else none
+    | none => none
+  | .other => none
+
+/-- the strategy classes Cassandra ships, with and without the package prefix -/
+inductive ClassKind
+  | simple | nts | local_
+deriving DecidableEq
+
+def classKind (cls : List Char) : Option ClassKind :=
+  if cls = "org.apache.cassandra.locator.SimpleStrategy".toList ∨ cls = "SimpleStrategy".toList then some .simple
+  else if cls = "org.apache.cassandra.locator.NetworkTopologyStrategy".toList ∨ cls = "NetworkTopologyStrategy".toList
+    then some .nts
+  else if cls = "org.apache.cassandra.locator.LocalStrategy".toList ∨ cls = "LocalStrategy".toList then some .local_
+  else none
+
+/-- what a keyspace's replication setting means, for the strategy classes Cassandra ships (nothing is specified for other
+class names): SimpleStrategy — the number under `replication_factor`, no placement knowledge when it denotes none;
+NetworkTopologyStrategy — every option other than `class` names a datacenter, mapped to the number its value denotes,
+datacenters whose value denotes none are left out; LocalStrategy — no placement. -/
+def strategy (cls : List Char) (opts : List (List Char × OptVal)) : Option Strategy :=
+  match classKind cls with
+  | none => none
+  | some .local_ => some .none_
+  | some .simple =>
+    some (match (opts.lookup "replication_factor".toList).bind rfOfOpt with
+      | some rf => .simple rf
+      | none => .none_)
+  | some .nts =>
+    some (.nts ((opts.filter (fun kv => kv.1 ≠ "class".toList)).filterMap
+      (fun kv => (rfOfOpt kv.2).map (fun rf => (kv.1, rf)))))
 
 end Spec
 end Placement
